@@ -541,5 +541,4 @@ def skip_model(case, obs):
     return any(o.get("o") == "raise" and o.get("exc") == "ConflictResolutionError" for o in obs.get("outs", []))
 
 
-FINDINGS = {"C01-always-merge-list-default-len-n": _merge_list_default,
-            "C01-always-merge-optional-list-default": _merge_optional_list_default, "C01-union-str-default-converted": _union_str_default}
+FINDINGS = { "C01-union-str-default-converted": _union_str_default}
